@@ -4,16 +4,17 @@ CFG = {
     "lean_exe": "lm_c15",
     "theorems": [
         "Leptos.Url.C15_escape_unescape",
-        "Leptos.Url.C15_once_total_partial",
+        "Leptos.Url.C15_query_once",
         "Leptos.Url.C15_path_param_once",
-        "Leptos.Url.C15_insert_noTriple",
+        "Leptos.Url.C15_path_param_lossy",
+        "Leptos.Url.C15_query_roundtrip",
         "Leptos.Url.C15_double_decode_witness",
-        "Leptos.Url.C15_once_full_false",
         "Leptos.Url.C15_panic_witness",
-        "Leptos.Url.C15_total_full_false",
         "Leptos.Url.C15_path_param_panic_witness",
         "Leptos.Url.pctDecode_escape",
         "Leptos.Url.utf8Lossy_of_valid",
+        "Leptos.Url.formParse_pieces",
+        "Leptos.Url.pushAll_mapPairs",
     ],
     "harness_pkg": "hx-c15",
     "harness_bin": "c15",
@@ -32,9 +33,11 @@ CFG = {
     "assumptions": ["request targets without ASCII whitespace/control characters and backslashes (the url crate strips/rewrites those before the query is seen)"],
     "manifest": {
         "category": "proof",
-        "text": "Lean 4 theorems over all byte strings: escape/unescape round-trip, single decode and no panic for every query whose "
-                "once-decoded values contain no further %HH (partial; the full 'once' and 'total' statements are refuted by kernel-checked "
-                "witnesses = known findings F-C15-1/2/3), tied to the code by a differential run of the real RequestUrl/ParamsMap/Url against the compiled model",
+        "text": "Lean 4 theorems over all byte strings and all parameter maps (no size bound): escape/unescape round-trip, query values are the "
+                "once-decoded pairs grouped by key with multiplicity and order, path parameters are decoded once (lossily, never a panic), "
+                "to_query_string followed by parsing is the identity on maps; totality is carried by the model functions being total after the two "
+                "repairs (fix: commits 8fe4d25, 879e1a0 in /repo; the pre-repair behaviour is kept as *Old definitions with kernel-checked regression "
+                "witnesses). Tied to the code by a differential run of the real RequestUrl/ParamsMap/Url/ParamSegment against the compiled model.",
         "design_ref": "DESIGN.md §7 C15",
         "note": "model hand-written, faithfulness checked by correspondence on generated inputs; url crate parser trusted outside the query component",
         "technique": "Lean 4 proof (induction over byte lists) + refutation witnesses + differential correspondence",
